@@ -147,7 +147,10 @@ def ev(im, code: str) -> T.Tuple[bool, T.Optional[dict], str]:
         ast = im.parse(code)
     except Exception as e:
         return False, None, 'PARSE:' + type(e).__name__
-    ans, vs = im.run_ast(ast)
+    try:
+        ans, vs = im.run_ast(ast)
+    except (MemoryError, RecursionError):
+        return False, None, 'ERR:MemoryError:0|'
     return vs is not None, vs, ans
 
 
